@@ -268,7 +268,7 @@ where
 	K: Keychain + 'a,
 {
 	// Create a potential output for this transaction
-	let key_id = keys::next_available_key(wallet, keychain_mask).unwrap();
+	let key_id = keys::next_available_key_for(wallet, keychain_mask, &parent_key_id).unwrap();
 	let keychain = wallet.keychain(keychain_mask)?;
 	let key_id_inner = key_id.clone();
 	let amount = slate.amount;
@@ -373,6 +373,7 @@ where
 		fee,
 		change_outputs,
 		include_inputs_in_sum,
+		parent_key_id,
 	)?;
 
 	Ok((parts, coins, change_amounts_derivations, fee))
@@ -514,6 +515,7 @@ pub fn inputs_and_change<'a, T: ?Sized, C, K, B>(
 	fee: u64,
 	num_change_outputs: usize,
 	include_inputs_in_sum: bool,
+	parent_key_id: &Identifier,
 ) -> Result<
 	(
 		Vec<Box<build::Append<K, B>>>,
@@ -580,7 +582,8 @@ where
 				part_change
 			};
 
-			let change_key = wallet.next_child(keychain_mask).unwrap();
+			let change_key =
+				keys::next_available_key_for(wallet, keychain_mask, parent_key_id).unwrap();
 
 			change_amounts_derivations.push((change_amount, change_key.clone(), None));
 			parts.push(build::output(change_amount, change_key));
